@@ -341,7 +341,8 @@ def compare_one(pid, line, mlines, res):
             if a != b and op_relevant(pid, mp["op"]) and implside.premise_ok(pid, line, parsed, mp["k"]) and \
                (pid not in END_PREMISE or
                 (end_concerns(pid, line, parsed, mp, ip) if mp["op"] == "end" else concerns_family(pid, line, parsed, mp, ip))):
-                return n, {"at": mp["k"], "model": a, "impl": b, "why": "projection %s differs" % sorted(fields)}
+                return n, {"at": mp["k"], "model": a, "impl": b, "why": "projection %s differs" % sorted(fields),
+                           "op": mp["op"], "out_pair": [mp["out"], ip["out"]]}
             # the traces part ways here, in fields or at an operation this property does not speak about
             return n, {"elsewhere": True, "at": mp["k"], "op": mp["op"], "fields": sorted(df)}
     if res["fate"] != "done" and fo is None:
